@@ -218,4 +218,23 @@ theorem time_injective (t t' : Text) (v : Nat × Nat) (h : parseTimeHHMM t = som
 /-- two accepted date texts with the same meaning are the same text -/
 theorem date_injective (t t' : Text) (x : YMD) (h : parseDateYYMMDD t = some x) (h' : parseDateYYMMDD t' = some x) : t = t' := by
   rw [← print_parse t x h, ← print_parse t' x h']
+
+/-- **offsets round-trip**: the four digits of an accepted offset print back as the text that was read -/
+theorem offset_print_parse (s : Char) (t : Text) (r : Char × Nat × Nat) (h : parseOffset s t = some r) :
+    printHHMM r.2.1 r.2.2 = t := by
+  unfold parseOffset at h
+  split at h
+  · split at h
+    · split at h
+      · rename_i a' b' c' d' ha hb hc hd
+        split at h
+        · cases h
+          unfold printHHMM
+          rw [fmt2_digits (digitVal_lt ha) (digitVal_lt hb), fmt2_digits (digitVal_lt hc) (digitVal_lt hd),
+            digitChar_digitVal ha, digitChar_digitVal hb, digitChar_digitVal hc, digitChar_digitVal hd]
+          rfl
+        · cases h
+      · cases h
+    · cases h
+  · cases h
 end SwiftMT.Props.C11
